@@ -254,10 +254,91 @@ class Extractor:
                     for s2 in (st.body if choices[key] else st.orelse):
                         self.stmt(s2)
                     return
+            if self.select_branch(st):
+                return
             self.err("branch inside a recursion kernel", st)
         if isinstance(st, (ast.Pass, ast.Raise)):
             return
         self.err(f"statement {type(st).__name__}", st)
+
+    def select_branch(self, st):
+        """An undecided `if` whose branches only bind names (no store, return, loop): both are evaluated and every name bound
+        differently becomes an opaque choice Phi(a, b) with the common axes.  Such a value is fine wherever it is never looked at (a
+        store this caller does not reach); anywhere else it is not the specified coefficient and is reported as such."""
+        def pure(stmts):
+            for x in stmts:
+                if isinstance(x, ast.Assign) and all(isinstance(t, ast.Name) for t in x.targets):
+                    continue
+                if isinstance(x, ast.If) and pure(x.body) and pure(x.orelse):
+                    continue
+                if isinstance(x, ast.Pass):
+                    continue
+                return False
+            return True
+        if not (pure(st.body) and pure(st.orelse)):
+            return False
+        env0 = dict(self.env)
+        try:
+            for x in st.body:
+                self.stmt(x)
+            env1 = self.env
+            self.env = dict(env0)
+            for x in st.orelse:
+                self.stmt(x)
+            env2 = self.env
+        except AnalysisError:
+            self.env = env0
+            return False
+        merged = dict(env0)
+        # an exact test `np.array_equal(x, y)` / `np.all(x == y)`: on the taken branch x and y are the same numbers
+        eq = None
+        t = st.test
+        pair = None
+        if isinstance(t, ast.Call) and dotted(t.func) in ("np.array_equal", "numpy.array_equal") and len(t.args) == 2:
+            pair = t.args
+        elif isinstance(t, ast.Call) and ((dotted(t.func) in ("np.all", "numpy.all", "all") and len(t.args) == 1) or
+                                          (isinstance(t.func, ast.Attribute) and t.func.attr == "all" and not t.args)):
+            inner = t.args[0] if t.args else t.func.value
+            if isinstance(inner, ast.Compare) and len(inner.ops) == 1 and isinstance(inner.ops[0], ast.Eq):
+                pair = [inner.left, inner.comparators[0]]
+        if pair is not None:
+            try:
+                xv, yv = self.expr(pair[0]), self.expr(pair[1])
+                if isinstance(xv, SV) and isinstance(yv, SV):
+                    eq = (xv.e, yv.e)
+            except AnalysisError:
+                eq = None
+        for k in set(env1) | set(env2):
+            a, b = env1.get(k), env2.get(k)
+            if a is b:
+                merged[k] = a
+                continue
+            if k.startswith("__flag__"):
+                merged[k] = a if a is not None else b  # bookkeeping of a fork decided inside one branch
+                continue
+            if eq is not None and isinstance(a, SV) and isinstance(b, SV) and a.labels is not None and b.labels is not None \
+                    and [l.window() for l in a.labels] == [l.window() for l in b.labels]:
+                try:
+                    same = sp.simplify((a.e - b.e).subs(eq[0], eq[1])) == 0 or sp.simplify((a.e - b.e).subs(eq[1], eq[0])) == 0
+                except Exception:
+                    same = False
+                if same:
+                    merged[k] = b  # the special-case value equals the general formula whenever the branch is taken
+                    continue
+            if isinstance(a, SV) and isinstance(b, SV) and a.labels is not None and b.labels is not None \
+                    and [l.window() for l in a.labels] == [l.window() for l in b.labels]:
+                if sp.simplify(a.e - b.e) == 0:
+                    merged[k] = a
+                else:
+                    out = SV(sp.Function("Phi")(sp.Integer(next(self.counter)), a.e, b.e), a.labels)
+                    out.ar.update(a.ar)
+                    out.ar.update(b.ar)
+                    merged[k] = out
+                continue
+            self.env = env0
+            return False
+        self.env = merged
+        return True
 
     def decide_scalar_test(self, test):
         """`i > 0` on loop variables / constants: True / False when the comparison has the same outcome for every value the loop
